@@ -89,6 +89,25 @@ def gen_scenario(rng, profile="mixed"):
     return lines
 
 
+def window_sweep(rng):
+    """a first registration of a signal that has a pre-existing handler (each calling convention, or
+    ignore), with one delivery of that signal nested on the registering thread - or running on another
+    thread - from every step of the registration on: some of them land between the installation of
+    the library's handler and the publication of the slot"""
+    out = []
+    for kind in ("h1:3", "h3:5", "ign"):
+        for sg in (10, 15):
+            for d in range(2, 40, 2):
+                for nested in (True, False):
+                    lines = ["setup foreign %d %s" % (sg, kind), "t0 reg %d 100" % sg]
+                    lines.append(("t1 nested t0 deliver %d" % sg) if nested else ("t1 deliver %d" % sg))
+                    lines.append("delay t1 %d" % d)
+                    lines.append("seed %d" % rng.randint(1, 2**31))
+                    lines.append("maxsteps 4000")
+                    out.append(lines)
+    return out
+
+
 DROP = re.compile(r"^(t\d+ (?:H )?)drop-action (\d+)$")
 
 
